@@ -916,7 +916,7 @@ fn main() {
         std::process::exit(r.finish());
     }
 
-    let n = args.n(210, 2016);
+    let n = args.n(210, 8064);
     par_cases(&mut r, &args, n, |i, r| {
         let sc = generate(seed, i, &opts);
         run(r, &sc);
